@@ -108,7 +108,7 @@ func richContainer(id, pod, name string, st api.ContainerState, r *rand.Rand) *a
 		Pid: uint32(1000 + r.Intn(5000)),
 		Linux: &api.LinuxContainer{
 			Devices: []*api.LinuxDevice{
-				{Path: "/dev/fake0", Type: "c", Major: 240, Minor: 1, FileMode: api.FileMode(0o660), Uid: api.UInt32(0), Gid: api.UInt32(44)},
+				{Path: "/dev/fake0", Type: "c", Major: 240, Minor: 1, FileMode: api.FileMode(os.FileMode(0o660)), Uid: api.UInt32(uint32(0)), Gid: api.UInt32(uint32(44))},
 				{Path: "/dev/fake1", Type: "c", Major: 240, Minor: 2},
 			},
 			Resources: &api.LinuxResources{
@@ -271,7 +271,9 @@ func (c *cacheableThing) Get() interface{} { return c }
 
 func typedEntries() []typedEntry {
 	return []typedEntry{
-		{"verif-cpuset", func(ch cache.Cache, r *rand.Rand) { ch.SetPolicyEntry("verif-cpuset", cpuset.New(r.Intn(4), 4+r.Intn(4), 9)) },
+		{"verif-cpuset", func(ch cache.Cache, r *rand.Rand) {
+			ch.SetPolicyEntry("verif-cpuset", cpuset.New(r.Intn(4), 4+r.Intn(4), 9))
+		},
 			func(ch cache.Cache) string {
 				var v cpuset.CPUSet
 				if !ch.GetPolicyEntry("verif-cpuset", &v) {
@@ -309,7 +311,9 @@ func typedEntries() []typedEntry {
 			}
 			return sortedMap(v)
 		}},
-		{"verif-string", func(ch cache.Cache, r *rand.Rand) { ch.SetPolicyEntry("verif-string", "s\"\n"+strconv.Itoa(r.Intn(99))) },
+		{"verif-string", func(ch cache.Cache, r *rand.Rand) {
+			ch.SetPolicyEntry("verif-string", "s\"\n"+strconv.Itoa(r.Intn(99)))
+		},
 			func(ch cache.Cache) string {
 				var v string
 				if !ch.GetPolicyEntry("verif-string", &v) {
@@ -333,7 +337,9 @@ func typedEntries() []typedEntry {
 				}
 				return strconv.FormatInt(int64(v), 10)
 			}},
-		{"verif-uint32", func(ch cache.Cache, r *rand.Rand) { ch.SetPolicyEntry("verif-uint32", uint32(1<<31)+uint32(r.Intn(1<<30))) },
+		{"verif-uint32", func(ch cache.Cache, r *rand.Rand) {
+			ch.SetPolicyEntry("verif-uint32", uint32(1<<31)+uint32(r.Intn(1<<30)))
+		},
 			func(ch cache.Cache) string {
 				var v uint32
 				if !ch.GetPolicyEntry("verif-uint32", &v) {
@@ -341,7 +347,9 @@ func typedEntries() []typedEntry {
 				}
 				return strconv.FormatUint(uint64(v), 10)
 			}},
-		{"verif-int64", func(ch cache.Cache, r *rand.Rand) { ch.SetPolicyEntry("verif-int64", -(int64(1)<<60)-int64(r.Intn(1<<30))) },
+		{"verif-int64", func(ch cache.Cache, r *rand.Rand) {
+			ch.SetPolicyEntry("verif-int64", -(int64(1)<<60)-int64(r.Intn(1<<30)))
+		},
 			func(ch cache.Cache) string {
 				var v int64
 				if !ch.GetPolicyEntry("verif-int64", &v) {
@@ -349,7 +357,9 @@ func typedEntries() []typedEntry {
 				}
 				return strconv.FormatInt(v, 10)
 			}},
-		{"verif-uint64", func(ch cache.Cache, r *rand.Rand) { ch.SetPolicyEntry("verif-uint64", (uint64(1)<<63)+uint64(r.Intn(1<<30))+1) },
+		{"verif-uint64", func(ch cache.Cache, r *rand.Rand) {
+			ch.SetPolicyEntry("verif-uint64", (uint64(1)<<63)+uint64(r.Intn(1<<30))+1)
+		},
 			func(ch cache.Cache) string {
 				var v uint64
 				if !ch.GetPolicyEntry("verif-uint64", &v) {
